@@ -17,7 +17,8 @@ import (
 func init() {
 	register(&RuleSet{
 		ID: "C02",
-		Explanation: "R9 the caller's endorsement is the reference: in a validator whose options can name the endorsement (field Endorsement) and that consults it, another endorsement is produced (extracted, unmarshalled, verified from bytes) only where that field was found nil. " +
+		Explanation: "R10 where SNP options were given the technology check runs: a call of verify.SNP in package verify is conditional only on those options being non-nil and on conditions whose other side refuses. " +
+			"R9 the caller's endorsement is the reference: in a validator whose options can name the endorsement (field Endorsement) and that consults it, another endorsement is produced (extracted, unmarshalled, verified from bytes) only where that field was found nil. " +
 			"R1 verify.SNP (ESP with flags ExpectedLaunchVMSAs≠0, Measurement≠nil): a possibly-nil return needs the true edge of a bytes.Equal between the options' Measurement and an endorsed value — for a named count the endorsed value must come from the map lookup keyed by that count (or the SVSM field) — unless nothing was requested; a failed comma-ok / empty-SVSM presence test never reaches a nil return. " +
 			"R2 validator closure: the measurement handed on is the report's; the verification call is reached only behind the equal edge of len(m) vs abi.MeasurementSize. " +
 			"R3 core: nil return only on the len(ExpectedUefiSha384)==0 edge or after bytes.Equal(ExpectedUefiSha384, golden.Digest) was true. " +
@@ -52,6 +53,7 @@ func isBytesEqual(in ssa.Instruction) (*ssa.Call, bool) {
 
 func runC02(c *Ctx) {
 	defer c02PinnedEndorsement(c)
+	defer c02TechnologyCheckNotSkipped(c)
 	// R7 = C01.R4: the closure that compares the measurement only decides anything if go-sev-guest must call it.
 	c.borrow("R7/C01.", runC01, func(rule, _ string) bool { return rule == "R4" })
 	// R8 = C01.R1/R3: "the measurement is listed by the endorsement" only means something if the endorsement that
@@ -1017,4 +1019,54 @@ func c02PinnedEndorsement(c *Ctx) {
 		}
 	}
 	c.S.Floor("R9", "validators that consult an Endorsement field of their options", 3, n)
+}
+
+// c02TechnologyCheckNotSkipped is R10: where technology options were given, the technology check runs. Every call of
+// verify.SNP from another function of package verify is conditional only on (a) the options value it is handed being
+// non-nil and (b) conditions whose other side refuses with an error; a further condition that steps over the call
+// and goes on (the endorsement has no sev_snp section, a flag) accepts a launch whose measurement the endorsement does
+// not list — an absent section must be refused by the check itself, not waved through in front of it.
+func c02TechnologyCheckNotSkipped(c *Ctx) {
+	snp := c.P.Func("verify", "SNP")
+	if snp == nil {
+		c.S.Unk("R10", "anchor:verify.SNP", "", "function not found")
+		return
+	}
+	n := 0
+	for _, f := range c.P.RepoFunctions() {
+		if load.RelPkg(f) != "verify" || c.isTestFunc(f) || f == snp || f.Blocks == nil {
+			continue
+		}
+		for i, call := range callsIn(f, func(call ssa.CallInstruction) bool { return call.Common().StaticCallee() == snp }) {
+			n++
+			args := call.Common().Args
+			bad, at := "", call.Pos()
+			for _, cf := range dominatingConds(call.Block()) {
+				// (a) the nil test of the options handed to the check
+				if bo, ok := cf.Cond.(*ssa.BinOp); ok && (bo.Op == token.EQL || bo.Op == token.NEQ) && isNilK(bo.Y) && len(args) == 2 && samePointerValue(bo.X, args[1]) {
+					continue
+				}
+				// (b) the side that does not lead to the call refuses
+				if cf.Block != nil && len(cf.Block.Succs) == 2 {
+					other := cf.Block.Succs[0]
+					if cf.Val {
+						other = cf.Block.Succs[1]
+					}
+					if isErrorExit(other) {
+						continue
+					}
+				}
+				bad = "a condition other than \"options given\" steps over the technology check: " + flow.Describe(cf.Cond)
+				if in, ok := cf.Cond.(ssa.Instruction); ok {
+					at = in.Pos()
+				}
+			}
+			construct := load.FuncName(f) + ":technology check not skipped"
+			if i > 0 {
+				construct = fmt.Sprintf("%s #%d", construct, i+1)
+			}
+			c.S.Check(bad == "", "R10", construct, c.pos(at), "verify.SNP is called whenever SNP options were given (other conditions on the way refuse)", bad+": with SNP options given, an endorsement for which the condition is false is accepted without its measurements having been compared")
+		}
+	}
+	c.S.Floor("R10", "calls of verify.SNP from package verify", 1, n)
 }
